@@ -12,8 +12,14 @@
   (length preserved; flag cleared ⇒ input returned unchanged); `getNextImf_contract` shows that
   single-IMF extraction (C04 model, no energy threshold) satisfies it for every envelope oracle.
   `resid x cols = x − Σ cols` (`Sig.sub x (Sig.vsum x.length cols)`).
+
+  With an energy threshold the contract's `stay` half fails (the flag is also cleared when the energy
+  rule fires); the section "With an energy threshold" states the property at full strength for EVERY
+  option record: complete unless cut short by the cap, the sift threshold or the energy rule
+  (`Sift.EnergyFires D o p c`: `energy_thresh = some t` and `t < D p (p − c)`, `D` the dB oracle).
 -/
 import Proofs.Lemmas.SiftOuter
+import Proofs.Lemmas.SiftEnergy
 import Proofs.Lemmas.Compose
 
 namespace C01
@@ -138,6 +144,89 @@ theorem sift_last_nonoscillatory (I : Nat → Sig → Sig × Sig) (D : Sig → S
       · simp [hlt] at hn
   | convergeError => rw [hr] at hc; cases hc
 
+/-! ### With an energy threshold (every option record of `get_next_imf`)
+
+`Sift.EnergyFires D o p c` : `o.energyThresh = some t ∧ t < D p (Sig.sub p c)` — the test
+`_energy_difference(X, X - imf) > energy_thresh` of `get_next_imf` on input `p`, result `c`.
+`Sift.LastEnergyFires D o x cols` : `cols = init ++ [c]` and `EnergyFires D o (resid x init) c` — the rule
+fired on the extraction that produced the last column. -/
+
+/-- FULL-STRENGTH COMPLETENESS over `get_next_imf`, energy threshold or not: if the sift ends with the
+    continue flag cleared, then EITHER the components sum to the input exactly (and the last one is the
+    unmodified running residual, which has an undefined envelope) OR the energy rule fired on the last
+    extraction. -/
+theorem sift_getNextImf_complete_or_energy (E : Nat → Sig → Env) (hE : EnvLen E) (D : Sig → Sig → Rat) (o : ImfOpts)
+    (thr : Rat) (cap : Option Nat) (x : Sig) (fuel : Nat) (cols : List Sig) (cp th : Bool)
+    (h : sift (extractorIx E D o) thr cap x fuel = (cols, .done true cp th)) :
+    (Sig.vsum x.length cols = x ∧
+      ∃ c, cols.getLast? = some c ∧ c = resid x cols.dropLast ∧ ((E 0 c).1 = none ∨ (E 0 c).2 = none)) ∨
+    LastEnergyFires D o x cols := by
+  obtain ⟨init, c, rfl, _, hor⟩ := sift_gni_flag_exit E hE D o thr cap x fuel cols cp th h
+  rcases hor with ⟨hc, hn, hsum⟩ | hfire
+  · left; exact ⟨hsum, c, by simp, by simpa using hc, hn⟩
+  · right; exact ⟨init, c, rfl, hfire⟩
+
+/-- Threshold configured but it did not fire on the last extraction ⇒ complete.  (Hypothesis on the last
+    layer only; "never fired in any layer" implies it.) -/
+theorem sift_getNextImf_complete_energy_silent (E : Nat → Sig → Env) (hE : EnvLen E) (D : Sig → Sig → Rat)
+    (o : ImfOpts) (t : Rat) (he : o.energyThresh = some t) (thr : Rat) (cap : Option Nat) (x : Sig) (fuel : Nat)
+    (cols : List Sig) (cp th : Bool)
+    (h : sift (extractorIx E D o) thr cap x fuel = (cols, .done true cp th))
+    (hsilent : ∀ init c, cols = init ++ [c] → ¬ t < D (resid x init) (Sig.sub (resid x init) c)) :
+    Sig.vsum x.length cols = x := by
+  rcases sift_getNextImf_complete_or_energy E hE D o thr cap x fuel cols cp th h with hc | ⟨init, c, hcols, t', ht', hlt⟩
+  · exact hc.1
+  · rw [he] at ht'; cases ht'
+    exact absurd hlt (hsilent init c hcols)
+
+/-- THE THREE DOCUMENTED CUT-SHORT CAUSES ARE EXHAUSTIVE for `sift` over `get_next_imf`: every regular
+    exit is complete (Σ columns = input, exactly) unless the cap was reached (exactly `cap` columns),
+    the last column's abs-sum is below `sift_thresh`, or the energy threshold fired on the last
+    extraction. -/
+theorem sift_getNextImf_cutshort_cases (E : Nat → Sig → Env) (hE : EnvLen E) (D : Sig → Sig → Rat) (o : ImfOpts)
+    (thr : Rat) (cap : Option Nat) (x : Sig) (fuel : Nat) (cols : List Sig) (fl cp th : Bool)
+    (h : sift (extractorIx E D o) thr cap x fuel = (cols, .done fl cp th)) :
+    Sig.vsum x.length cols = x ∨ cap = some cols.length ∨
+      (∃ c, cols.getLast? = some c ∧ Sig.absSum c < thr) ∨ LastEnergyFires D o x cols := by
+  obtain ⟨hor, hcp, c, hlast, hth⟩ := sift_cutshort_cases _ thr cap x fuel cols fl cp th h
+  rcases hor with hfl | hc | ht
+  · subst hfl
+    rcases sift_getNextImf_complete_or_energy E hE D o thr cap x fuel cols cp th h with hcomp | hfire
+    · exact Or.inl hcomp.1
+    · exact Or.inr (Or.inr (Or.inr hfire))
+  · exact Or.inr (Or.inl (hcp.mp hc))
+  · exact Or.inr (Or.inr (Or.inl ⟨c, hlast, hth.mp ht⟩))
+
+/-- Without an energy threshold the fourth cause is impossible (so the earlier theorems are the
+    `energyThresh = none` instances of this section). -/
+theorem lastEnergyFires_of_none (D : Sig → Sig → Rat) (o : ImfOpts) (he : o.energyThresh = none) (x : Sig)
+    (cols : List Sig) : ¬ LastEnergyFires D o x cols := by
+  rintro ⟨_, _, _, hf⟩; exact energyFires_none he hf
+
+/-- Last component with an energy threshold: when the flag was cleared it is a non-oscillatory residual
+    OR the energy rule fired on it. -/
+theorem sift_last_nonoscillatory_or_energy (I : Nat → Sig → Sig × Sig) (D : Sig → Sig → Rat) (o : ImfOpts)
+    (thr : Rat) (cap : Option Nat) (x : Sig) (fuel : Nat) (cols : List Sig) (cp th : Bool)
+    (h : sift (extractorIx (envOf I) D o) thr cap x fuel = (cols, .done true cp th)) :
+    (∃ c, cols.getLast? = some c ∧ (peaks c < 2 ∨ troughs c < 2)) ∨ LastEnergyFires D o x cols := by
+  obtain ⟨init, c, rfl, _, hc, _⟩ :=
+    siftLoop_done (fun _ => extractorIx (envOf I) D o) thr cap x fuel [] x cols true cp th (resid_nil x).symm h
+  rcases (flag_iff_energy' (envOf I) D o _ c _ (extractorIx_imf hc)).mp (by simp) with ⟨hcx, hn⟩ | hfire
+  · left
+    refine ⟨c, by simp, ?_⟩
+    rw [← hcx] at hn
+    simp only [envOf] at hn
+    rcases hn with hn | hn
+    · left
+      by_cases hlt : peaks c < 2
+      · exact hlt
+      · simp [hlt] at hn
+    · right
+      by_cases hlt : troughs c < 2
+      · exact hlt
+      · simp [hlt] at hn
+  · right; exact ⟨init, c, rfl, hfire⟩
+
 /-! ### Non-vacuity: a 7-sample signal, table extractor, natural exit in two layers. -/
 
 /-- layer 0 returns a zig-zag component with the flag set, layer 1 returns its input unchanged, flag cleared -/
@@ -164,6 +253,36 @@ example : peaks [1, 2, 3, 4, 5, 6, 7] < 2 := by decide +kernel
 example : peaks [0, 1, -1, 1, -1, 1, 0] = 3 ∧ troughs [0, 1, -1, 1, -1, 1, 0] = 2 := by decide +kernel
 
 
+/-! ### Non-vacuity with an energy threshold (real `get_next_imf` model as the extractor) -/
+
+/-- envelopes (upper = the signal, lower = 0) while the first sample exceeds 1 -/
+def toyE3 : Nat → Sig → Env := fun _ h =>
+  match h with
+  | a :: _ => if a ≤ 1 then (none, none) else (some h, some (h.map fun _ => 0))
+  | [] => (none, none)
+
+def toyOe : ImfOpts := { stop := .sd (1/2), step := 1, maxIters := 5, energyThresh := some 50 }
+
+example : EnvLen toyE3 := by
+  intro k h U L he
+  unfold toyE3 at he
+  split at he
+  · split at he
+    · cases he
+    · cases he; simp
+  · cases he
+-- threshold set, never fires (dB oracle ≡ 0): three columns, natural exit, complete
+example : sift (extractorIx toyE3 (fun _ _ => 0) toyOe) (1/100000000) none [4, 8] 10
+    = ([[2, 4], [1, 2], [1, 2]], .done true false false) := by decide +kernel
+example : Sig.vsum 2 [[2, 4], [1, 2], [1, 2]] = [4, 8] := by decide +kernel
+-- threshold fires on the first extraction (dB oracle ≡ 60 > 50): flag cleared, the decomposition is
+-- cut short and does NOT sum to the input — the energy disjunct of the theorems is necessary
+example : sift (extractorIx toyE3 (fun _ _ => 60) toyOe) (1/100000000) none [4, 8] 10
+    = ([[2, 4]], .done true false false) := by decide +kernel
+example : Sig.vsum 2 [[2, 4]] ≠ [4, 8] := by decide +kernel
+example : LastEnergyFires (fun _ _ => 60) toyOe [4, 8] [[2, 4]] :=
+  ⟨[], [2, 4], rfl, 50, rfl, by decide +kernel⟩
+
 /-! ### The composed pipeline: Sift model on top of the Extrema model (C05)
 
 The theorems above take the envelope as an oracle.  Here it is instantiated with the envelopes of
@@ -171,15 +290,46 @@ the Extrema model (`Sift.extEnv I w parab` = upper/lower `Extrema.interpEnvelope
 `w ≥ 1`, with or without parabolic refinement), leaving only the interpolant `I` abstract — the
 model of the whole chain get_padded_extrema → interp_envelope → get_next_imf → sift. -/
 
+/-- In the range `1 ≤ w` the composed model represents the code faithfully: `extEnv` (which maps a
+    RAISING envelope to "no envelope") has a `none` component exactly when `interp_envelope` returns
+    None — it never raises there (`C05.interpEnvelope_never_raises`). -/
+theorem pipeline_envelopes_faithful (I : Extrema.Interp) (w : Nat) (hw : 1 ≤ w) (parab : Bool) (h : Sig) :
+    ((extEnv I w parab h).1 = none ↔ Extrema.interpEnvelope I .upper w parab h = .none) ∧
+    ((extEnv I w parab h).2 = none ↔ Extrema.interpEnvelope I .lower w parab h = .none) :=
+  Compose.extEnv_faithful I w hw parab h
+
+/-- …and at `w = 0` it does NOT: on every signal with ≥ 2 peaks the code's `interp_envelope` raises
+    ValueError (`C05.interpEnvelope_pad0_raises`) while `extEnv` answers "no envelope" — the composed
+    model would report a natural exit with an oscillatory "residual" on a call that the code rejects.
+    Hence every pipeline theorem below (and in C02 / C07) carries `1 ≤ w`. -/
+theorem pipeline_pad0_not_represented (I : Extrema.Interp) (parab : Bool) (h : Sig) (hp : 2 ≤ peaks h) :
+    (extEnv I 0 parab h).1 = none ∧ Extrema.interpEnvelope I .upper 0 parab h = .valueError :=
+  Compose.extEnv_pad0_artifact I parab h hp
+
 /-- Completeness for the composed pipeline: when the sift ends of its own accord the components
     sum to the input exactly, for every interpolant, pad width ≥ 1, refinement flag, stop rule,
     step, iteration limit, threshold, cap, input and fuel. -/
-theorem sift_pipeline_complete (I : Extrema.Interp) (w : Nat) (parab : Bool) (D : Sig → Sig → Rat) (o : ImfOpts)
-    (he : o.energyThresh = none) (thr : Rat) (cap : Option Nat) (x : Sig) (fuel : Nat) (cols : List Sig)
+theorem sift_pipeline_complete (I : Extrema.Interp) (w : Nat) (hw : 1 ≤ w) (parab : Bool) (D : Sig → Sig → Rat)
+    (o : ImfOpts) (he : o.energyThresh = none) (thr : Rat) (cap : Option Nat) (x : Sig) (fuel : Nat) (cols : List Sig)
     (cp th : Bool)
     (h : sift (extractorIx (fun _ => extEnv I w parab) D o) thr cap x fuel = (cols, .done true cp th)) :
-    Sig.vsum x.length cols = x :=
-  sift_getNextImf_complete _ (extEnv_len I w parab) D o he thr cap x fuel cols cp th h
+    Sig.vsum x.length cols = x := by
+  have hE : EnvLen (envOf (Compose.envVals I w parab)) :=
+    Compose.extEnv_eq_envOf I w hw parab ▸ extEnv_len I w parab
+  rw [Compose.extEnv_eq_envOf I w hw parab] at h
+  exact sift_getNextImf_complete _ hE D o he thr cap x fuel cols cp th h
+
+/-- …with any option record (energy threshold included): every regular exit of the composed pipeline
+    is complete unless the cap, the sift threshold or the energy rule cut it short. -/
+theorem sift_pipeline_cutshort_cases (I : Extrema.Interp) (w : Nat) (hw : 1 ≤ w) (parab : Bool) (D : Sig → Sig → Rat)
+    (o : ImfOpts) (thr : Rat) (cap : Option Nat) (x : Sig) (fuel : Nat) (cols : List Sig) (fl cp th : Bool)
+    (h : sift (extractorIx (fun _ => extEnv I w parab) D o) thr cap x fuel = (cols, .done fl cp th)) :
+    Sig.vsum x.length cols = x ∨ cap = some cols.length ∨
+      (∃ c, cols.getLast? = some c ∧ Sig.absSum c < thr) ∨ LastEnergyFires D o x cols := by
+  have hE : EnvLen (envOf (Compose.envVals I w parab)) :=
+    Compose.extEnv_eq_envOf I w hw parab ▸ extEnv_len I w parab
+  rw [Compose.extEnv_eq_envOf I w hw parab] at h
+  exact sift_getNextImf_cutshort_cases _ hE D o thr cap x fuel cols fl cp th h
 
 /-- … and the final component is a non-oscillatory residual in the sense of the Extrema model:
     fewer than two detected peaks or fewer than two detected troughs. -/
@@ -192,5 +342,20 @@ theorem sift_pipeline_last_nonoscillatory (I : Extrema.Interp) (w : Nat) (hw : 1
   rw [Compose.extEnv_eq_envOf I w hw parab] at h
   obtain ⟨c, hc, hp⟩ := sift_last_nonoscillatory (Compose.envVals I w parab) D o he thr cap x fuel cols cp th h
   exact ⟨c, hc, by rw [← Compose.peaks_eq, ← Compose.troughs_eq]; exact hp⟩
+
+/-! ### Non-vacuity of the pipeline theorems: the composed model itself runs to a natural exit -/
+
+/-- a (crude) interpolant: the constant first + last magnitude -/
+def sumInterp : Extrema.Interp := { eval := fun _ mags _ => mags.headD 0 + mags.getLastD 0 }
+
+-- pad width 2, no refinement, fixed count 3 with step 1/2: two columns, natural exit, Σ = x
+example : sift (extractorIx (fun _ => extEnv sumInterp 2 false) (fun _ _ => 0)
+      { stop := .fixed, step := 1/2, maxIters := 3, energyThresh := none }) (1/100000000) none [0, 3, -1, 2, -2, 2, 1] 10
+    = ([[-1/2, 5/2, -3/2, 3/2, -5/2, 3/2, 1/2], [1/2, 1/2, 1/2, 1/2, 1/2, 1/2, 1/2]], .done true false false) := by
+  decide +kernel
+-- the w = 0 artefact on the same signal (3 peaks): the code raises, `extEnv` says "no envelope"
+example : (extEnv sumInterp 0 false [0, 3, -1, 2, -2, 2, 1]).1 = none ∧
+    Extrema.interpEnvelope sumInterp .upper 0 false [0, 3, -1, 2, -2, 2, 1] = .valueError :=
+  pipeline_pad0_not_represented sumInterp false _ (by decide +kernel)
 
 end C01
